@@ -137,7 +137,7 @@ def r1_protocol(ctx):
 
 
 def r2_confinement(ctx):
-    r = ctx.rule("R2", "CoinMapping.inner is mutated only by insert_coin / remove_coin / insert_coin_count; private field; no &mut accessor")
+    r = ctx.rule("R2", "CoinMapping.inner is mutated only by insert_coin / remove_coin / insert_coin_count; private field; no &mut accessor", positional=False)
     prog = ctx.prog
     allowed = {CM + "insert_coin", CM + "remove_coin", CM + "insert_coin_count"}
     ws = q.field_writers(prog, "melstf::state::coins::CoinMapping", "inner")
